@@ -42,6 +42,22 @@ def run(P, R, tier):
     C13.fixed_taint(P, R, 'C02.d', ('intersects',))
     from rules import common as _cm
     _cm.coordinate_buffers_row_major(P, R, 'C02.a')
+    _cm.scalar_dtype_from_data(P, R, 'C02.a')
+    # sibling agreement on the shared kernel: every caller of point_intersects_polygon (scalar form, array kernel, the box-corner step of the polygon kernels)
+    # asks it the same question - same number of positional arguments, same keyword options.  A mode switch passed by one form only makes the forms disagree
+    pip = P.find_func('spatialpandas.geometry._algorithms.intersection', 'point_intersects_polygon')
+    sites = []
+    for f in P.all_funcs():
+        for c in astq.own_calls(f):
+            if astq.is_call_to(P, f, c, pip):
+                sites.append((f, c, (len(c.args), tuple(sorted((k.arg, norm(k.value)) for k in c.keywords if k.arg)))))
+    R.floor('C02.b', 'callers of point_intersects_polygon', len(sites), 3)
+    import collections as _c
+    major = _c.Counter(sig for _, _, sig in sites).most_common(1)[0][0]
+    for f, c, sig in sites:
+        R.check(sig == major, 'C02.b', f, c, f'{f.qualname} calls point_intersects_polygon like every other form ({major[0]} arguments, options {list(major[1])})',
+                f'`{norm(c)[:90]}` passes {sig[0]} arguments / options {list(sig[1])} while the other forms pass {major[0]} / {list(major[1])}: the scalar, array and box forms no longer ask the '
+                'same question, so they disagree for the inputs the option changes (e.g. clockwise shells)', construct=f'{f.qualname}: point_intersects_polygon call form')
 
 
 def units_part(P, R):
